@@ -408,3 +408,105 @@ theorem healthy_sim {t : Nat} (ht : c.t = some t) (xs : List RBusIn)
 end Axi.SharedR
 
 end Litex.Timeout
+
+/-! ### Time-out of any mix of AW / W beats (a lone W before its AW included): step lemmas -/
+
+namespace Litex.Timeout.Axi.SharedW
+open Litex Axi
+open Litex.Timeout.Wb (orAll_false)
+variable (c : Cfg)
+
+/-- One WAIT cycle in which the owner offers an AW and/or a W beat (any of the two alone included) and every slave is
+    silent. -/
+theorem silent_wait_step_any {t : Nat} (ht : c.t = some t) (s : DState) (x : WBusIn)
+    (hgn : s.grant < c.n) (hl : s.lock = 0) (hr : s.tm.respond = false)
+    (hoff : ((x.ms s.grant).awv || (x.ms s.grant).wv) = true) (hsil : Silent x) :
+    ((out c s x).toM s.grant).awr = false ∧ ((out c s x).toM s.grant).wr = false ∧
+    ((out c s x).toM s.grant).bv = false ∧ (out c s x).error = WaitTimer.done s.tm.count ∧
+    (next c s x).grant = s.grant ∧ (next c s x).lock = 0 ∧
+    (next c s x).tm = { count := WaitTimer.next t s.tm.count true, respond := WaitTimer.done s.tm.count } := by
+  obtain ⟨h1, h2, h3⟩ := tIn_silent c s x hsil
+  have hwc : wWaitCond (tIn c s x) = true := by
+    simp only [wWaitCond, h1, h2]; simpa [tIn, bus] using hoff
+  have hres : tRes c s x = { awr := false, wr := false, bv := false, bresp := (tIn c s x).bresp,
+                             error := WaitTimer.done s.tm.count } := by
+    rw [tRes_some c ht]; simp [wOut, hr, h1, h2, h3, hwc]
+  have hce : ce c s x = false := by
+    have : ((bus s x).awv || (bus s x).wv) = true := hoff
+    simp [ce, this]
+  refine ⟨by simp [out, hres], by simp [out, hres], by simp [out, hres], by simp [out, hres], ?_, ?_, ?_⟩
+  · simp only [next, hce]; exact RoundRobin.next_ce_hold _ hgn
+  · simp [next, req, resp, hres, hl]
+  · rw [next_tm c ht]; simp [wNext, wWait, hwc, hr, wOut]
+
+/-- The RESPOND cycle in which whatever is offered is absorbed: the lock counts an absorbed AW, not a lone W. -/
+theorem silent_absorb_step_any {t : Nat} (ht : c.t = some t) (s : DState) (x : WBusIn)
+    (hgn : s.grant < c.n) (hl : s.lock = 0) (hr : s.tm.respond = true)
+    (hoff : ((x.ms s.grant).awv || (x.ms s.grant).wv) = true) :
+    ((out c s x).toM s.grant).awr = (x.ms s.grant).awv ∧ ((out c s x).toM s.grant).wr = (x.ms s.grant).wv ∧
+    ((out c s x).toM s.grant).bv = false ∧ (out c s x).error = false ∧
+    (next c s x).grant = s.grant ∧ (next c s x).lock = (if (x.ms s.grant).awv then 1 else 0) ∧
+    (next c s x).tm = { count := t, respond := true } := by
+  have hres : tRes c s x = { awr := (x.ms s.grant).awv, wr := (x.ms s.grant).wv, bv := false, bresp := RESP_SLVERR,
+                             error := false } := by
+    rw [tRes_some c ht]; simp only [wOut, hr, if_true]
+    cases ha : (x.ms s.grant).awv <;> cases hw : (x.ms s.grant).wv <;> simp [tIn, bus, ha, hw] at hoff ⊢
+  refine ⟨by simp [out, hres], by simp [out, hres], by simp [out, hres], by simp [out, hres],
+          respond_holds_grant c ht s x hr hgn, ?_, ?_⟩
+  · cases ha : (x.ms s.grant).awv <;> simp [next, req, resp, hres, hl, bus, ha, ctrNext]
+  · rw [next_tm c ht]
+    cases ha : (x.ms s.grant).awv <;> cases hw : (x.ms s.grant).wv <;>
+      simp [wNext, wWait, hr, wOut, tIn, bus, ha, hw, WaitTimer.next] <;> simp [ha, hw] at hoff
+
+/-- The RESPOND cycle in which the forced `B` is taken, with `lock ∈ {0, 1}`: the lock ends at 0 — a `B` delivered
+    while nothing was accepted (`lock = 0`) does NOT make the counter underflow (`response & ~empty`). -/
+theorem silent_b_step_any {t : Nat} (ht : c.t = some t) (s : DState) (x : WBusIn)
+    (hgn : s.grant < c.n) (hl : s.lock ≤ 1) (hr : s.tm.respond = true)
+    (haw : (x.ms s.grant).awv = false) (hw : (x.ms s.grant).wv = false) (hb : (x.ms s.grant).br = true) :
+    ((out c s x).toM s.grant).bv = true ∧ ((out c s x).toM s.grant).bresp = RESP_SLVERR ∧
+    (out c s x).error = false ∧
+    (next c s x).grant = s.grant ∧ (next c s x).lock = 0 ∧ (next c s x).tm = fInit t := by
+  have hi : (tIn c s x).awv = false ∧ (tIn c s x).wv = false ∧ (tIn c s x).br = true := ⟨haw, hw, hb⟩
+  have hres : tRes c s x = { awr := false, wr := false, bv := true, bresp := RESP_SLVERR, error := false } := by
+    rw [tRes_some c ht]; simp [wOut, hr, hi.1, hi.2.1]
+  refine ⟨by simp [out, hres], by simp [out, hres], by simp [out, hres],
+          respond_holds_grant c ht s x hr hgn, ?_, ?_⟩
+  · have : s.lock = 0 ∨ s.lock = 1 := by omega
+    rcases this with h | h <;> simp [next, req, resp, hres, h, bus, haw, hb, ctrNext]
+  · rw [next_tm c ht]; exact by
+      simp [wNext, wWait, hr, wOut, hi.1, hi.2.1, hi.2.2, WaitTimer.next, fInit]
+
+theorem silent_waiting_any {t : Nat} (ht : c.t = some t) (ys : List WBusIn) : ∀ (s : DState) (cnt : Nat),
+    s.grant < c.n → s.lock = 0 → s.tm = { count := cnt, respond := false } → ys.length ≤ cnt → cnt ≤ t →
+    (∀ y ∈ ys, ((y.ms s.grant).awv || (y.ms s.grant).wv) = true ∧ Silent y) →
+    ((machine c).runFrom s ys).grant = s.grant ∧ ((machine c).runFrom s ys).lock = 0 ∧
+    ((machine c).runFrom s ys).tm = { count := cnt - ys.length, respond := false } ∧
+    ∀ o ∈ (machine c).traceFrom s ys, o.error = false ∧ (o.toM s.grant).awr = false ∧
+      (o.toM s.grant).wr = false ∧ (o.toM s.grant).bv = false := by
+  induction ys with
+  | nil => intro s cnt _ hl htm _ _ _; simp [Machine.runFrom, Machine.traceFrom, hl, htm]
+  | cons y ys ih =>
+    intro s cnt hgn hl htm hlen hct hreq
+    obtain ⟨hoff, hsil⟩ := hreq y (by simp)
+    have hr : s.tm.respond = false := by rw [htm]
+    have hpos : cnt ≠ 0 := by simp at hlen; omega
+    have hdone : WaitTimer.done s.tm.count = false := by rw [htm]; simp [WaitTimer.done, hpos]
+    obtain ⟨o1, o2, o3, o4, n1, n2, n3⟩ := silent_wait_step_any c ht s y hgn hl hr hoff hsil
+    have hn3 : (next c s y).tm = { count := cnt - 1, respond := false } := by
+      rw [n3, hdone, htm]; simp [WaitTimer.next, WaitTimer.done, hpos]
+    have ih' := ih (next c s y) (cnt - 1) (by rw [n1]; exact hgn) n2 hn3 (by simp at hlen; omega) (by omega)
+      (fun z hz => by rw [n1]; exact hreq z (by simp [hz]))
+    obtain ⟨r1, r2, r3, r4⟩ := ih'
+    refine ⟨?_, ?_, ?_, ?_⟩
+    · show ((machine c).runFrom (next c s y) ys).grant = _
+      rw [r1, n1]
+    · exact r2
+    · show ((machine c).runFrom (next c s y) ys).tm = _
+      rw [r3]; simp; omega
+    · intro o ho
+      simp only [Machine.traceFrom, List.mem_cons] at ho
+      rcases ho with rfl | ho
+      · exact ⟨by rw [show (machine c).out s y = out c s y from rfl, o4, hdone], o1, o2, o3⟩
+      · have := r4 o ho; rw [n1] at this; exact this
+
+end Litex.Timeout.Axi.SharedW
